@@ -78,6 +78,23 @@ def one_case(ctx, lmplz, dexe, case, wd, flags, tag="c", spec_mode=False):
         ctx.notes["worst_log10_dev"] = max(ctx.notes.get("worst_log10_dev", 0.0), worst)
         for p in mp[:6]:
             out.append(("oracle", "values", p))
+    # ---- the same case under a tiny-memory configuration: several counting blocks (context carried across
+    #      block boundaries, per-block dedupe), hash-table growth, spills and multi-pass merges.  The ARPA must be
+    #      the same bytes, i.e. "exactly the n-grams of the sentences" also holds under block boundaries.
+    ntok = case["corpus"].count(b" ") + case["corpus"].count(b"\n")
+    mem2 = "1K" if ntok < 60 else ("4K" if ntok < 3000 else "256K")
+    tiny = ["--vocab_estimate", "20", "--minimum_block", "32b", "--sort_block", "256b" if ntok < 3000 else "4K",
+            "--block_count", str(2 + (ntok % 3))]
+    t2 = L.run_lmplz(lmplz, case, wd, tag + "m", mem=mem2, extra=tiny, timeout=300)
+    ctx.hist("tiny.class", t2["cls"])
+    if t2["cls"] == "ok":
+        if t2["arpa"] != t["arpa"]:
+            h2, tg2, _ = L.parse_arpa(t2["arpa"])
+            mp2, _ = L.compare_model(tg2, case["order"], ref["grams"], "definition")
+            out.append(("oracle", "blocks", "with -S %s %s the ARPA differs from the -S 64M run%s" % (
+                mem2, " ".join(tiny), (": " + mp2[0]) if mp2 else " (bytes only)")))
+    elif t2["cls"] != "config":
+        out.append(("oracle", "blocks", "with -S %s %s lmplz fails (%s) where the -S 64M run succeeds" % (mem2, " ".join(tiny), t2["cls"])))
     # ---- correspondence: the streaming model with the tree's flags
     d = L.run_driver(dexe, case, wd, tag, "stream", *flags)
     if d["cls"] != "ok":
